@@ -11,6 +11,7 @@ import (
 	"time"
 
 	"github.com/failsafe-go/failsafe-go"
+	"github.com/failsafe-go/failsafe-go/hedgepolicy"
 	"github.com/failsafe-go/failsafe-go/internal/zzvrt"
 )
 
@@ -151,6 +152,7 @@ func (s *zzSeeker) Read(p []byte) (int, error) {
 	return 1, nil
 }
 func (s *zzSeeker) Seek(off int64, whence int) (int64, error) { s.pos = int(off); return off, nil }
+func (s *zzSeeker) Close() error                               { return nil }
 
 // zzPlainReader is a caller-supplied one-shot io.Reader body.
 type zzPlainReader struct {
@@ -188,7 +190,7 @@ func ZZ_H18e_DoRequest() {
 	case 2:
 		body = io.NopCloser(bytes.NewReader(orig))
 	case 3:
-		body = io.NopCloser(&zzSeeker{data: orig})
+		body = &zzSeeker{data: orig}
 	case 4:
 		body = &zzPlainReader{data: orig}
 	}
@@ -287,4 +289,67 @@ func ZZ_H18e_DoRequest() {
 	callerCancel()
 	exCancel()
 	zzvrt.Reach("dorequest-done")
+}
+
+// H18g: doRequest under a hedge policy: two attempts are in flight at once and read their request bodies interleaved
+// (the first attempt reads one byte, waits, and reads the rest after the hedge has read everything). Each attempt
+// must still see the complete original body.
+func ZZ_H18g_HedgedBody() {
+	orig := []byte{zzvrt.Byte("body-byte"), zzvrt.Byte("body-byte"), zzvrt.Byte("body-byte")}
+	var body io.ReadCloser
+	kind := zzvrt.Choose("body-kind", 4)
+	switch kind {
+	case 0:
+		body = io.NopCloser(bytes.NewBuffer(append([]byte(nil), orig...)))
+	case 1:
+		body = io.NopCloser(bytes.NewReader(orig))
+	case 2:
+		body = &zzPlainReader{data: orig}
+	case 3:
+		body = &zzSeeker{data: orig}
+	}
+	D := zzvrt.Duration("hedgeDelay")
+	zzvrt.Assume(D >= 1)
+	zzvrt.Assume(D < 1<<30)
+	d := zzvrt.Duration("firstAttemptPause")
+	zzvrt.Assume(d >= 0)
+	zzvrt.Assume(d < 1<<30)
+	u := &url.URL{Scheme: "http", Host: "example.test", Path: "/p"}
+	req := &http.Request{Method: "POST", URL: u, Header: http.Header{}, Body: body}
+	ex := failsafe.NewExecutor[*http.Response](hedgepolicy.BuilderWithDelay[*http.Response](D).Build())
+	lab := "http: every attempt is sent with the complete original body (also when attempts overlap)"
+	if kind == 3 {
+		lab = "http: every attempt is sent with the complete original body (also when attempts overlap; caller-supplied io.ReadSeeker)"
+	}
+	reqFn := func(r *http.Request) (*http.Response, error) {
+		k := zzvrt.CtrAdd("attempts", 1)
+		var got []byte
+		buf := make([]byte, 1)
+		n, err := r.Body.Read(buf)
+		if n > 0 {
+			got = append(got, buf[0])
+		}
+		if k == 1 {
+			zzvrt.Sleep(d) // the hedge may start and read its whole body meanwhile
+		}
+		for err == nil {
+			n, err = r.Body.Read(buf)
+			if n > 0 {
+				got = append(got, buf[0])
+			}
+		}
+		zzvrt.Assert(len(got) == len(orig), lab)
+		if len(got) == len(orig) {
+			for i := range got {
+				zzvrt.Assert(got[i] == orig[i], lab)
+			}
+		}
+		return &http.Response{StatusCode: 200, Header: http.Header{}, Body: &zzRespBody{ctx: context.Background(), left: 0}}, nil
+	}
+	resp, err := doRequest(req, ex, reqFn)
+	zzvrt.Quiesce()
+	zzvrt.Assert(err == nil, "http: the final successful response is returned")
+	zzvrt.Assert(resp != nil, "http: the final successful response is returned")
+	zzvrt.Assert(zzvrt.CtrGet("attempts") <= 2, "http: at most maxHedges+1 attempts")
+	zzvrt.Reach("hedged-body-done")
 }
